@@ -373,6 +373,43 @@ def templates(W):
                       outs=(lambda nb_=nb_, signed=signed: lambda s: [[(z3.SignExt if signed else z3.ZeroExt)(64 - 8 * nb_, z3.Concat(*by[i * nb_:(i + 1) * nb_])) if nb_ < 8 else z3.Concat(*by[i * nb_:(i + 1) * nb_]) for i in range(2)]])()))
     T.append(Tmpl('rewind', 'output o int32 1 o <- stack 2 o <- stack 3 o <- stack 2 o rewind o len', 0, lambda s: [], lambda s: [(z3.BoolVal(True), [BVc(1)])],
                   outs=lambda s: [[z3.BitVecVal(1, 32)]]))
+    # variable-length and bit-packed reads
+    def varint(k):
+        v = z3.BitVecVal(0, 64)
+        for i in range(k):
+            v = v | (z3.ZeroExt(56, by[i] & 0x7f) << (7 * i))
+        return v
+
+    def cutw(v):
+        return z3.Extract(W - 1, 0, v) if W < v.size() else v
+
+    def vguard(k):
+        return z3.And([by[i] & 0x80 != 0 for i in range(k - 1)] + [by[k - 1] & 0x80 == 0])
+    T.append(Tmpl('read-varint', 'input s s varint-> stack s pos', 0, lambda s: [z3.Or([vguard(k) for k in (1, 2, 3, 9)])],
+                  lambda s: [(vguard(k), [cutw(varint(k)), BVc(k)]) for k in (1, 2, 3, 9)], nbytes=10, steps=40))
+    T.append(Tmpl('read-varint-toobig', 'input s s varint-> stack', 0, lambda s: [z3.And([by[i] & 0x80 != 0 for i in range(9)])],
+                  lambda s: [(z3.BoolVal(True), [], 'varint_too_big')], nbytes=10, steps=40))
+
+    def zz(v):
+        return z3.LShR(v, 1) ^ (-(v & 1)) if False else ((v >> 1) ^ (-(v & 1)))
+    T.append(Tmpl('read-zigzag', 'input s s zigzag-> stack s pos', 0, lambda s: [z3.Or([vguard(k) for k in (1, 2, 3)])],
+                  lambda s: [(vguard(k), [cutw(zz(varint(k))), BVc(k)]) for k in (1, 2, 3)], nbytes=10, steps=40))
+    stream = z3.Concat(*reversed(by))          # bit 0 of byte 0 is bit 0 of the stream
+
+    def rev8(b):
+        return z3.Concat(*[z3.Extract(i, i, b) for i in range(8)])
+    stream_flipped = z3.Concat(*reversed([rev8(b) for b in by]))
+
+    def item(st, N, k):
+        v = z3.Extract(N * (k + 1) - 1, N * k, st)
+        v = z3.ZeroExt(64 - N, v) if N < 64 else v
+        return cutw(v)
+    for N in (1, 3, 8, 12, 31, 32, 33, 57, 58, 63, 64):
+        for flip in (False, True):
+            w = '#' + ('!' if flip else '') + '%dbit' % N
+            T.append(Tmpl('read-' + w, 'input s 2 s %s-> stack s pos' % w, 0, lambda s: [],
+                          (lambda N=N, flip=flip: lambda s: [(z3.BoolVal(True), [item(stream_flipped if flip else stream, N, 0), item(stream_flipped if flip else stream, N, 1), BVc((2 * N + 7) // 8)])])(),
+                          nbytes=16, inpos=(2 * N + 7) // 8, steps=60))
     T.append(Tmpl('again-halt', 'begin 1- dup 0= if halt then again', 1, lambda s: [s[0] >= 1, s[0] <= 3], lambda s: [(s[0] == n, [BVc(0)], 'user_halt') for n in (1, 2, 3)]))
     return T
 
